@@ -245,9 +245,7 @@ pub fn run(ctx: &mut Ctx) {
                 c /= 8;
             }
             let text = toks.join(" ");
-            if case % 64 == 0 {
-                ctx.rec.case_marker(case, &format!("exhaustive {:?}", text));
-            }
+            ctx.rec.case_marker_throttled(case, "exhaustive token sequence", 64);
             judge(ctx, &text, Some(&toks), &empty, &is, &names, "exhaustive");
             ctx.rec.cover(&format!("shape|{}", shape_class(&toks)));
         }
@@ -255,7 +253,7 @@ pub fn run(ctx: &mut Ctx) {
     ctx.rec.note("exhaustive_space", &total.to_string());
 
     // (b) hostile random strings
-    let nb = ctx.n(20000, 600000);
+    let nb = ctx.n(60000, 2000000);
     for k in 0..nb as u64 {
         case += 1;
         if !ctx.mine(case) {
@@ -322,9 +320,7 @@ pub fn run(ctx: &mut Ctx) {
                 (0..n).map(|_| r.pick(&[")", ") )", "(", "x", ")x", "INT[", "1"]).to_string()).collect::<Vec<_>>().join(" ")
             }
         };
-        if k % 16 == 0 {
-            ctx.rec.case_marker(case, &format!("random {:?}", text.chars().take(120).collect::<String>()));
-        }
+        ctx.rec.case_marker_throttled(case, "hostile random string", 16);
         judge(ctx, &text, None, &base, &is, &names, "random");
         ctx.rec.cover(&format!("rand|{}|{}|{}", text.len().min(50) / 5, text.matches('(').count().min(6), text.is_ascii()));
         if k % 3000 == 0 {
@@ -333,7 +329,7 @@ pub fn run(ctx: &mut Ctx) {
     }
 
     // (c) balanced trees with random whitespace
-    let nc = ctx.n(20000, 500000);
+    let nc = ctx.n(60000, 2000000);
     for k in 0..nc as u64 {
         case += 1;
         if !ctx.mine(case) {
@@ -356,9 +352,7 @@ pub fn run(ctx: &mut Ctx) {
         // other stacks randomly filled, EXEC empty
         let mut base = if k % 3 == 0 { gen::snap(&mut r, &StateOpts::rich(Vals::Mixed), &names) } else { empty.clone() };
         base.e.clear();
-        if k % 16 == 0 {
-            ctx.rec.case_marker(case, &format!("tree {:?}", text.chars().take(120).collect::<String>()));
-        }
+        ctx.rec.case_marker_throttled(case, "balanced tree", 16);
         judge(ctx, &text, Some(&refs), &base, &is, &names, "tree");
         let maxd = {
             let mut d = 0i32;
